@@ -154,7 +154,7 @@ def r3_35(ctx):
         searched = any(_board_place(f, b, roots, resolve_operand(b, a)) for a in t["args"])
         ctx.ob("go-arm:searches-current-board", searched, b.where(b.term_loc(bb)), "the current board is what is searched")
         from .uci_rules import _is_exit_call
-        ok_nodiv = not any(_is_exit_call(b.term(x)) for x in dp.reach("go"))
+        ok_nodiv = not any(_is_exit_call(b.term(x)) for x in dp.after_dispatch("go"))
         ctx.ob("go-arm:returns-to-loop", ok_nodiv, b.where(b.term_loc(s)), "the go arm contains no process exit and falls through to the next command")
     fb = f.body(FIND)
     fex = Exprs(fb)
@@ -196,38 +196,43 @@ def r3_6(ctx):
     b = f.body(PFMT)
     ctx.note_fn(PFMT, PFROM, "board::PieceKind::alg", "uci::make_move")
     ex = Exprs(b)
-    maps = {}
-    for bb in b.normal:
-        t = b.term(bb)
-        if t["k"] != "switch":
-            continue
-        d = strip_refs(ex.switch_discr(bb))
-        if d[0] == "field" and d[2] in ("0", "1"):
-            m = {}
-            for v, tg in t["cases"]:
-                for i, st in enumerate(b.stmts(tg)):
-                    if st["k"] == "assign":
-                        e = strip_refs(ex.rvalue(st["rv"], (tg, i)))
-                        if e[0] == "str":
-                            m[v] = e[1]
-            maps[d[2]] = m
-    colm = maps.get("1", {})
-    rowm = maps.get("0", {})
-    okc = all(colm.get(k) == chess.FILES[k - 2] for k in range(2, 10))
-    okr = all(rowm.get(k) == str(10 - k) for k in range(2, 10))
-    ctx.ob("Point::fmt:files", okc, b.file, "column -> file letter: %s" % sorted(colm.items()))
-    ctx.ob("Point::fmt:ranks", okr, b.file, "row -> rank digit: %s" % sorted(rowm.items()))
-    # the template prints file then rank
-    tpl = [t for _, t in fmtlit.templates(b)]
-    order = []
-    for bb, t in sorted(b.iter_calls()):
-        if "new_display::<&str>" in (t.get("callee_full") or ""):
-            a = ex.call_args(bb)[0]
-            # which switch produced it: the local assigned from the column or the row switch
-            sl = data_slice(ex, a)
-            txt = {x[1] for x in sl if x[0] == "str"}
-            order.append("file" if txt & set(chess.FILES) else ("rank" if txt & set("12345678") else "?"))
-    ctx.ob("Point::fmt:file-then-rank", tpl == ["{}{}"] and order == ["file", "rank"], b.file, "template %s, argument order %s" % (tpl, order))
+    # fmt: executed concretely for the 64 on-board points (finite instantiation): the text written is
+    # the rendered format site on the path taken, with every hole evaluated on that path -- a `match`
+    # per coordinate, a lookup table indexed by the offset, ... print the same text
+    from wa.concwalk import Conc
+    from wa.interp import Unknown
+    from wa import strsym
+    sp = [i for i in range(1, b.arg_count + 1) if b.local_ty(i) == "&board::Point"]
+    if len(sp) != 1 or b.loops():
+        raise ShapeNotRecognised("Point::fmt(&self, ..) without loops expected")
+    sites = dict(strsym.fmt_sites(b))
+
+    def printed(row, col):
+        cw = Conc(f, b, {("arg", sp[0]): ("adt", "board::Point", None, (row, col))}, ex)
+        try:
+            cw.run(want_result=False)
+            hit = [bb for bb in cw.path if bb in sites]
+            if len(hit) != 1:
+                return None
+            out = ""
+            for pc in strsym.flatten(ex, ex.call_expr(b.term(hit[0]), b.term_loc(hit[0]))):
+                if pc[0] == "lit":
+                    out += pc[1]
+                else:
+                    v = cw.ev(pc[2])
+                    out += v if isinstance(v, str) else str(v)
+            return out
+        except Unknown as e:
+            raise ShapeNotRecognised("Point::fmt cannot be evaluated for Point(%d, %d): %r" % (row, col, e))
+    text = {(r_, c_): printed(r_, c_) for r_ in range(2, 10) for c_ in range(2, 10)}
+    colm = {c_: sorted({(text[(r_, c_)] or "?")[:1] for r_ in range(2, 10)}) for c_ in range(2, 10)}
+    rowm = {r_: sorted({(text[(r_, c_)] or "??")[1:2] for c_ in range(2, 10)}) for r_ in range(2, 10)}
+    okc = all(colm[k] == [chess.FILES[k - 2]] for k in range(2, 10))
+    okr = all(rowm[k] == [str(10 - k)] for k in range(2, 10))
+    ctx.ob("Point::fmt:files", okc, b.file, "column -> file letter: %s" % sorted((k, "".join(v)) for k, v in colm.items()))
+    ctx.ob("Point::fmt:ranks", okr, b.file, "row -> rank digit: %s" % sorted((k, "".join(v)) for k, v in rowm.items()))
+    bad = [(k, v) for k, v in sorted(text.items()) if v != chess.FILES[k[1] - 2] + str(10 - k[0])]
+    ctx.ob("Point::fmt:file-then-rank", not bad, b.file, "the 64 on-board points print as file letter then rank digit, nothing else" if not bad else "wrong texts (point, printed): %s" % bad[:6])
     # from_str: evaluated concretely on every two-character text (finite instantiation): the 64 square
     # names must parse to the Point that fmt prints as that name, i.e. Point(10 - digit, file index + 2),
     # and neighbouring non-squares must be rejected.  The k-th `chars.next()` is the k-th character.
